@@ -1,0 +1,14 @@
+package smgp30
+
+import "encoding/hex"
+
+// rawMsgID returns the 10 octets of a MsgID. IDecode exposes MsgID as 20 hex digits;
+// accept that form as well as the raw 10 octets so that a decoded PDU can be encoded again.
+func rawMsgID(id string) string {
+	if len(id) == 20 {
+		if raw, err := hex.DecodeString(id); err == nil {
+			return string(raw)
+		}
+	}
+	return id
+}
